@@ -19,6 +19,9 @@ struct Case {
     files: Vec<(String, Vec<u8>)>,
     /// Some(prefix): a later-chunk failure, the output must hold exactly these bytes afterwards
     later_chunk_prefix: Option<Vec<u8>>,
+    /// the command may legitimately succeed (then the run is not a failure case and nothing is judged); if it
+    /// fails, it must have failed before touching the output path
+    may_succeed: bool,
 }
 
 /// prior states of the output path: absent, short content, 400 kB content, dangling symbolic link, symbolic link to a file
@@ -98,7 +101,7 @@ pub fn run(ctx: &Ctx) {
     let env_pw = |p: &str| vec![(s("KESTREL_PASSWORD"), s(p))];
     let mut cases: Vec<Case> = Vec::new();
     let mut add = |command: &'static str, cause: &str, args: &[&str], env: Vec<(String, String)>, stdin: Stdin, files: Vec<(String, Vec<u8>)>, later: Option<Vec<u8>>| {
-        cases.push(Case { command, cause: cause.to_string(), args: args.iter().map(|a| a.to_string()).collect(), env, stdin, files, later_chunk_prefix: later });
+        cases.push(Case { command, cause: cause.to_string(), args: args.iter().map(|a| a.to_string()).collect(), env, stdin, files, later_chunk_prefix: later, may_succeed: false });
     };
     // ---------------- encrypt ----------------
     let e_ok = ["encrypt", "plain.txt", "-t", "bob", "-f", "alice", "-o", "OUT", "-k", "kr.txt", "--env-pass"];
@@ -221,6 +224,25 @@ pub fn run(ctx: &Ctx) {
     add("key generate", "bad arguments: unknown option", &["key", "generate", "-o", "OUT", "--env-pass", "--frob"], env_pw("gpw"), Stdin::Bytes(b"joe\n".to_vec()), vec![], None);
     add("key generate", "no password source at all (no tty)", &["key", "generate", "-o", "OUT"], vec![], Stdin::Bytes(b"joe\n".to_vec()), vec![], None);
 
+    // ---------------- keyrings with a DAMAGED UNRELATED entry (valid text, wrong checksum) ----------------
+    // The tool may ignore such an entry (the command then succeeds: not a failure case) or refuse the keyring; if it
+    // fails - at whatever point it notices - the output path must not have been touched.
+    {
+        let mut blob = crate::util::unb64(&refspec::encode_pk(&refspec::pubkey_of(&rng.arr32()))).unwrap();
+        blob[35] ^= 0x55;
+        let dave = format!("[Key]\nName = dave\nPublicKey = {}\n", crate::util::b64(&blob));
+        let kr_first = format!("{}\n{}", dave, kr);
+        let kr_mid = format!("{}\n{}\n{}", alice.entry(true), dave, bob.entry(true));
+        let kr_last = format!("{}\n{}", kr, dave);
+        let kr_noalice = format!("{}\n{}", dave, bob.entry(true));
+        for (pos, k) in [("first", &kr_first), ("between sender and recipient", &kr_mid), ("last", &kr_last), ("first, sender not listed", &kr_noalice)] {
+            let files = vec![(s("kr.txt"), k.clone().into_bytes()), (s("plain.txt"), b"some plaintext\n".to_vec()), (s("in.ktl"), small_kf.clone())];
+            cases.push(Case { command: "decrypt", cause: format!("damaged unrelated keyring entry ({})", pos), args: d_ok.iter().map(|a| a.to_string()).collect(), env: env_pw("bpw"), stdin: Stdin::Null, files: files.clone(), later_chunk_prefix: None, may_succeed: true });
+            if !pos.contains("not listed") {
+                cases.push(Case { command: "encrypt", cause: format!("damaged unrelated keyring entry ({})", pos), args: e_ok.iter().map(|a| a.to_string()).collect(), env: env_pw("apw"), stdin: Stdin::Null, files, later_chunk_prefix: None, may_succeed: true });
+            }
+        }
+    }
     // the output path itself varies: plain, long, multi-byte characters at every alignment, odd characters
     let mut out_names: Vec<String> = vec!["OUT".into()];
     for (pad, ch, n) in [(0usize, "\u{e9}", 40usize), (1, "\u{e9}", 40), (0, "\u{20ac}", 30), (1, "\u{20ac}", 30), (2, "\u{20ac}", 30), (0, "\u{1f511}", 20), (1, "\u{1f511}", 20), (2, "\u{1f511}", 20), (3, "\u{1f511}", 20)] {
@@ -314,6 +336,8 @@ pub fn run(ctx: &Ctx) {
         let sigbase = format!("C13:{}:{}", case.command.replace(' ', "-"), cause_key);
         if o.exit == Exit::Timeout {
             ctx.inconclusive("C13: child timed out");
+        } else if case.may_succeed && o.exit == Exit::Code(0) {
+            ctx.seen("command with a damaged unrelated keyring entry succeeded (not a failure case)");
         } else if o.exit != Exit::Code(1) {
             ctx.violation(&format!("{}:exit-status-{}", sigbase, o.exit.describe().replace(' ', "-")), detail());
         } else if let Some(prefix) = &case.later_chunk_prefix {
